@@ -42,6 +42,11 @@ const TX_OPS: &[&str] = &[
     "ALTER TABLE t ADD COLUMN z INT",
     "CREATE VIEW v2 AS SELECT id FROM t",
     "DROP VIEW vw",
+    "ALTER TABLE t DROP COLUMN v",
+    "CREATE UNIQUE INDEX uv ON t (v)",
+    "UPDATE t SET w = NULL WHERE id = 2",
+    "SAVEPOINT s1",
+    "ROLLBACK TO SAVEPOINT s1",
 ];
 
 const FUTURE: &[&str] = &[
@@ -136,7 +141,11 @@ impl Spec for C13Spec {
     }
     fn step(&self, pre: &Database, m: &Phase, op: &str, post: &Database, out: &Out, hist: &[String], rep: &Report) -> Option<Phase> {
         if let Out::Panic(msg) = out {
-            rep.violation(&[("kind", "panic".into()), ("op", kinds(&[op.to_string()]))], format!("`{}` panicked: {}", op, msg), case(hist));
+            // a panic of BEGIN / COMMIT / ROLLBACK is a failure to restore or keep the state; a panic of
+            // any other statement is property C24's business: counted, not explored further
+            if matches!(op, "BEGIN" | "COMMIT" | "ROLLBACK") {
+                rep.violation(&[("kind", "panic".into()), ("op", kinds(&[op.to_string()]))], format!("`{}` panicked: {}", op, msg), case(hist));
+            }
             return None;
         }
         match m {
